@@ -390,6 +390,41 @@ Section Steps.
       + right. split; [exact Hns|]. split; [apply (inv_fresh is_user seen d t HI Htu Hns)|exact Hpm].
   Qed.
 
+  (* the NameID a request answers names the format / requester / qualifier asked for, and its code is
+     one of the elements stored for the user in the state the step leaves behind *)
+  Theorem request_issued seen d o u f s q ni :
+    Inv seen d -> wf_event seen (ev d o) ->
+    request_of cfg o = Some (u, f, s, q) -> snd (step cfg d o) = ONid ni ->
+    fmt ni = Some f /\ normo (spq ni) = normo s /\ normo (nq ni) = normo q
+    /\ In (code ni) (fw (fst (step cfg d o)) u).
+  Proof.
+    intros HI Hwf Hr Hout. rewrite step_snd in Hout. rewrite step_fst.
+    pose proof (request_user seen d o u f s q Hwf Hr) as Hu.
+    destruct (plan_request cfg d o u f s q Hr) as (fr & Hp & Hcand).
+    destruct (plan_get cfg d u f s q fr) as [a x] eqn:Eg.
+    rewrite Hp in Hout |- *. cbn [fst snd] in Hout |- *. subst x.
+    destruct (plan_get_cases cfg d u f s q fr a _ Eg) as [[_ [e He]]|[(-> & Hf & m & Hm & Hx)|(-> & Hx & Hpm)]].
+    - discriminate.
+    - inversion Hx; subst m. clear Hx. cbn [apply_action].
+      destruct (match_some_stored d u s q ni Hm) as (v & c & Hv & Hc & Hd & Hnt & Hnm).
+      apply nid_matches_iff in Hnm as [H1 H2].
+      assert (Hfmt : fmt ni = Some f).
+      { subst f. destruct (fmt ni) as [x|]; [|discriminate Hnt]. cbn [eq_arg opt_eqb] in Hnt.
+        apply String.eqb_eq in Hnt. congruence. }
+      repeat (split; [assumption|]).
+      destruct (in_elements_fw d u v c Hv Hc) as [->|Hin].
+      + exfalso. rewrite decode_empty in Hd. inversion Hd; subst ni. discriminate Hnt.
+      + destruct (inv_codes _ _ _ HI u c Hu Hin) as (n0 & t & -> & _).
+        rewrite decode_code in Hd. inversion Hd; subst ni. rewrite code_norm. exact Hin.
+    - inversion Hx; subst ni. clear Hx. cbn [apply_action fmt spq nq].
+      repeat (split; [reflexivity|]).
+      set (t := final_text cfg f fr) in *. set (n := mkN q s (Some f) None (Some t)).
+      assert (Hin : In t (cand cfg o)) by (rewrite Hcand; left; reflexivity).
+      assert (Hp1 : fst (plan cfg d o) = AStore u n t) by (rewrite Hp; reflexivity).
+      destruct (wf_store_fresh seen d o u n t HI Hwf Hp1 Hu Hin) as (Hne & Htu & Hns).
+      apply (store_new_in is_user d u n t Hu eq_refl Hne Htu).
+  Qed.
+
   (* ---------------------------------------------------------------- NewID / Terminate *)
   Theorem manage_ok seen d o (pre : trace) :
     Inv seen d -> wf_event seen (ev d o) -> manage_event pre (ev d o).
